@@ -471,7 +471,7 @@ Lemma frag_run_len t0 m k steps : forall nid iv dr mail,
   (length (fr_steps (snd (fst (fst (fst (frag_run t0 nid m k iv steps dr mail)))))) <= length steps)%nat.
 Proof.
   induction steps as [|st r IH]; intros nid iv dr mail; cbn [frag_run]; [cbn; lia|].
-  destruct st as [d|t|d v| | | | |polled d1 d2|d| |ch d| |d ch| |]; cbn [fst snd fr_steps length]; try lia;
+  destruct st as [d|t|d v| | | | |polled d1 d2|d| |ch d| |d ch| | | ]; cbn [fst snd fr_steps length]; try lia;
   try (destruct v as [x|]; cbn [fst snd fr_steps length]; try lia);
   try (destruct iv as [i|]; cbn [fst snd fr_steps length]; try lia);
   try (destruct (mail_take m ch mail) as [[s0 mail0]|]; cbn [fst snd fr_steps length]; try lia);
